@@ -56,13 +56,13 @@ theorem BV.shr_bit (a : BV) (ha : a.WF) (k i : Nat) :
     · simp only [h1, decide_false, Bool.false_and]
       exact Nat.testBit_lt_two_pow (Nat.lt_of_lt_of_le ha (Nat.pow_le_pow_right (by omega) (by omega)))
 
-/-- a result with the same length and allocation whose bits are those of the spec refines it -/
-theorem Raw.refines_of_bits (s t : Raw w) (hw : 0 < w) (h : s.Inv) (b : BV)
-    (hlen : t.length = s.length) (hsz : t.data.size = s.data.size) (hbl : b.len = s.length)
+/-- a result with the same length, enough allocation, and the bits of the spec refines it -/
+theorem Raw.refines_of_bits (s t : Raw w) (hw : 0 < w) (_h : s.Inv) (b : BV)
+    (hlen : t.length = s.length) (hcap : s.length ≤ t.data.size * w) (hbl : b.len = s.length)
     (hz : ∀ i, s.length ≤ i → b.bit i = false)
     (hb : ∀ i, bitAt t.data i = b.bit i) : t.Inv ∧ t.abs = b := by
   constructor
-  · refine ⟨by rw [hlen, hsz]; exact h.1, fun i hi => ?_⟩
+  · refine ⟨by rw [hlen]; exact hcap, fun i hi => ?_⟩
     rw [hb i]; exact hz i (by omega)
   · apply BV.ext_bits
     · rw [Raw.abs_len, hlen, hbl]
@@ -191,7 +191,8 @@ theorem shrAssign_length (s : Raw w) (k : Nat) : (s.shrAssign k).length = s.leng
 
 theorem shrAssign_refines (s : Raw w) (hw : 0 < w) (h : s.Inv) (k : Nat) :
     (s.shrAssign k).Inv ∧ (s.shrAssign k).abs = s.abs.shr k := by
-  apply Raw.refines_of_bits s _ hw h _ (shrAssign_length s k) (shrAssign_size s hw h k)
+  apply Raw.refines_of_bits s _ hw h _ (shrAssign_length s k)
+    (by rw [shrAssign_size s hw h k]; exact h.1)
   · unfold BV.shr; split <;> rfl
   · intro i hi
     rw [BV.shr_bit _ (h.wf hw)]
@@ -277,9 +278,9 @@ theorem shlLoop2_spec (hw : 0 < w) (ws : Array (BitVec w)) (newIdx : Nat)
       simp [h1, this]
     · by_cases h2 : i < newIdx
       · have : newIdx - l ≤ i ∧ i < newIdx - l + l := by omega
-        simp [h1, h2, this]
+        rw [if_neg h1, if_pos this, if_pos h2]
       · have : ¬ (newIdx - l ≤ i ∧ i < newIdx - l + l) := by omega
-        simp [h1, h2, this]
+        rw [if_neg h1, if_neg this, if_neg h2]
   | case2 ws newIdx hlt =>
     refine ⟨rfl, fun i => ?_⟩
     have : ¬ i < newIdx := by omega
@@ -340,7 +341,8 @@ theorem shlAssign_length (s : Raw w) (k : Nat) : (s.shlAssign k).length = s.leng
 
 theorem shlAssign_refines (s : Raw w) (hw : 0 < w) (h : s.Inv) (k : Nat) :
     (s.shlAssign k).Inv ∧ (s.shlAssign k).abs = s.abs.shl k := by
-  apply Raw.refines_of_bits s _ hw h _ (shlAssign_length s k) (shlAssign_size s hw h k)
+  apply Raw.refines_of_bits s _ hw h _ (shlAssign_length s k)
+    (by rw [shlAssign_size s hw h k]; exact h.1)
   · unfold BV.shl; split <;> rfl
   · intro i hi
     rw [BV.shl_bit]
@@ -350,4 +352,666 @@ theorem shlAssign_refines (s : Raw w) (hw : 0 < w) (h : s.Inv) (k : Nat) :
     rw [shlAssign_bits s hw h, BV.shl_bit, Raw.abs_bit _ _ hw, Raw.abs_len]
 
 end Raw
+
+-- ---- word-level helpers for shlIn / shrIn -----------------------------------------------------------
+theorem getLsbD_wd (ws : Array (BitVec w)) (hw : 0 < w) (j m : Nat) (hm : m < w) :
+    (wd ws j).getLsbD m = bitAt ws (w * j + m) := by
+  unfold bitAt
+  obtain ⟨h1, h2⟩ := div_mod_unique hw j m hm
+  rw [h1, h2]
+
+theorem bitAt_setIfInBounds (ws : Array (BitVec w)) (j : Nat) (v : BitVec w) (i : Nat)
+    (hj : j < ws.size) :
+    bitAt (ws.setIfInBounds j v) i = if i / w = j then v.getLsbD (i % w) else bitAt ws i := by
+  unfold bitAt wd
+  simp only [Array.getD_eq_getD_getElem?, Array.getElem?_setIfInBounds]
+  by_cases h : j = i / w
+  · subst h; simp [hj]
+  · have : ¬ i / w = j := fun e => h e.symm
+    simp [h, this]
+
+theorem getLsbD_b2w (c : Bool) (m : Nat) :
+    (b2w w c).getLsbD m = (decide (0 < w) && decide (m = 0) && c) := by
+  unfold b2w; cases c <;> simp [BitVec.getLsbD_one]
+
+theorem getLsbD_shl1_or (x : BitVec w) (c : Bool) (m : Nat) (hm : m < w) :
+    ((x <<< 1) ||| b2w w c).getLsbD m = if m = 0 then c else x.getLsbD (m - 1) := by
+  rw [BitVec.getLsbD_or, BitVec.getLsbD_shiftLeft, getLsbD_b2w]
+  by_cases h0 : m = 0
+  · subst h0; simp [hm]
+  · have : ¬ m < 1 := by omega
+    simp [h0, hm, this]
+
+theorem getLsbD_shr1_or (x : BitVec w) (c : Bool) (r m : Nat) (hr : r < w) :
+    ((x >>> 1) ||| (b2w w c <<< r)).getLsbD m = (x.getLsbD (m + 1) || (decide (m = r) && c)) := by
+  rw [BitVec.getLsbD_or, BitVec.getLsbD_shiftLeft, getLsbD_b2w, BitVec.getLsbD_ushiftRight,
+    Nat.add_comm 1 m]
+  congr 1
+  by_cases h0 : m = r
+  · subst h0; simp [hr]; omega
+  · by_cases h1 : m < r
+    · simp [h0, h1]
+    · have : ¬ (m - r = 0) := by omega
+      simp [h0, this]
+
+-- ---- shlIn -------------------------------------------------------------------------------------------
+/-- loop body of `shlIn` -/
+def shlInStep (i : Nat) (p : Array (BitVec w) × Bool) : Array (BitVec w) × Bool :=
+  let x := wd p.1 i
+  (p.1.setIfInBounds i ((x <<< 1) ||| b2w w p.2), ((x >>> (w - 1)) &&& 1#w) != 0#w)
+
+theorem shlInFold_spec (hw : 0 < w) (d0 : Array (BitVec w)) (c0 : Bool) (k : Nat)
+    (hk : k ≤ d0.size) :
+    ((List.range' 0 k).foldl (fun p i => shlInStep i p) (d0, c0)).1.size = d0.size ∧
+    (∀ i, bitAt ((List.range' 0 k).foldl (fun p i => shlInStep i p) (d0, c0)).1 i =
+      if i / w < k then (if i = 0 then c0 else bitAt d0 (i - 1)) else bitAt d0 i) ∧
+    ((List.range' 0 k).foldl (fun p i => shlInStep i p) (d0, c0)).2 =
+      if k = 0 then c0 else bitAt d0 (w * k - 1) := by
+  induction k with
+  | zero => simp
+  | succ k ih =>
+    obtain ⟨h1, h2, h3⟩ := ih (by omega)
+    rw [List.range'_concat, List.foldl_append]
+    simp only [List.foldl_cons, List.foldl_nil, Nat.zero_add, Nat.one_mul]
+    generalize (List.range' 0 k).foldl (fun p i => shlInStep i p) (d0, c0) = r at h1 h2 h3
+    have hks : k < r.1.size := by omega
+    have hwd : ∀ m, m < w → (wd r.1 k).getLsbD m = bitAt d0 (w * k + m) := by
+      intro m hm
+      rw [getLsbD_wd _ hw _ _ hm, h2]
+      have := (div_mod_unique hw k m hm).1
+      rw [this]; simp
+    refine ⟨by simp [shlInStep, h1], ?_, ?_⟩
+    · intro i
+      have mi := Nat.mod_lt i hw
+      have ei := idx_eq (w := w) i
+      simp only [shlInStep]
+      rw [bitAt_setIfInBounds _ _ _ _ hks]
+      by_cases hik : i / w = k
+      · have hlt1 : i / w < k + 1 := by omega
+        rw [if_pos hik, getLsbD_shl1_or _ _ _ mi, if_pos hlt1]
+        rw [hik] at ei
+        by_cases hm0 : i % w = 0
+        · rw [if_pos hm0, h3]
+          by_cases hk0 : k = 0
+          · subst hk0
+            have : i = 0 := by omega
+            simp [this]
+          · have hi0 : ¬ i = 0 := by
+              have : w * 1 ≤ w * k := Nat.mul_le_mul_left w (by omega)
+              omega
+            rw [if_neg hk0, if_neg hi0]
+            congr 1; omega
+        · have hi0 : ¬ i = 0 := by omega
+          rw [if_neg hm0, if_neg hi0, hwd _ (by omega)]
+          congr 1; omega
+      · rw [if_neg hik, h2]
+        by_cases hlt : i / w < k
+        · have hlt1 : i / w < k + 1 := by omega
+          rw [if_pos hlt, if_pos hlt1]
+        · have hlt1 : ¬ i / w < k + 1 := by omega
+          rw [if_neg hlt, if_neg hlt1]
+    · simp only [shlInStep]
+      rw [and_one_ne_zero, hwd _ (by omega), if_neg (by omega)]
+      congr 1
+      rw [Nat.mul_succ]; omega
+
+/-- the word loop of `shlIn` -/
+def Raw.shlInFold (s : Raw w) (bit : Bool) : Array (BitVec w) × Bool :=
+  (List.range' 0 (s.length / w)).foldl (fun p i => shlInStep i p) (s.data, bit)
+
+theorem Raw.shlIn_eq (s : Raw w) (bit : Bool) :
+    s.shlIn bit =
+      if s.length % w ≠ 0 then
+        (⟨Array.setIfInBounds (s.shlInFold bit).fst (s.length / w)
+              (((wd (s.shlInFold bit).fst (s.length / w) <<< 1) ||| b2w w (s.shlInFold bit).snd) &&&
+                mask w (s.length % w)), s.length⟩,
+          ((wd (s.shlInFold bit).fst (s.length / w) >>> (s.length % w - 1)) &&& 1#w) != 0#w)
+      else (⟨(s.shlInFold bit).fst, s.length⟩, (s.shlInFold bit).snd) := by
+  rfl
+
+theorem div_le_size (_hw : 0 < w) (n sz : Nat) (h : n ≤ sz * w) : n / w ≤ sz :=
+  Nat.div_le_of_le_mul (by rw [Nat.mul_comm]; exact h)
+
+theorem div_lt_size (_hw : 0 < w) (n sz : Nat) (h : n ≤ sz * w) (hr : n % w ≠ 0) : n / w < sz := by
+  have e := idx_eq (w := w) n
+  have hc : sz * w = w * sz := Nat.mul_comm _ _
+  exact Nat.lt_of_mul_lt_mul_left (a := w) (by omega)
+
+theorem Raw.shlIn_bits (s : Raw w) (hw : 0 < w) (h : s.Inv) (b : Bool) :
+    (s.shlIn b).1.length = s.length ∧ (s.shlIn b).1.data.size = s.data.size ∧
+    (∀ i, bitAt (s.shlIn b).1.data i =
+      (decide (i < s.length) && (if i = 0 then b else bitAt s.data (i - 1)))) ∧
+    (s.shlIn b).2 = (if s.length = 0 then b else bitAt s.data (s.length - 1)) := by
+  obtain ⟨hcap, hz⟩ := h
+  obtain ⟨h1, h2, h3⟩ := shlInFold_spec hw s.data b (s.length / w) (div_le_size hw _ _ hcap)
+  rw [Raw.shlIn_eq]
+  unfold Raw.shlInFold
+  generalize (List.range' 0 (s.length / w)).foldl (fun p i => shlInStep i p) (s.data, b) = r
+    at h1 h2 h3
+  have eL := idx_eq (w := w) s.length
+  have mL := Nat.mod_lt s.length hw
+  have hwd : ∀ m, m < w → (wd r.1 (s.length / w)).getLsbD m = bitAt s.data (w * (s.length / w) + m) := by
+    intro m hm
+    rw [getLsbD_wd _ hw _ _ hm, h2]
+    have := (div_mod_unique hw (s.length / w) m hm).1
+    rw [this]; simp
+  by_cases hr : s.length % w ≠ 0
+  · rw [if_pos hr]
+    have hJ : s.length / w < r.1.size := by rw [h1]; exact div_lt_size hw _ _ hcap hr
+    refine ⟨rfl, by simp [h1], ?_, ?_⟩
+    · intro i
+      have mi := Nat.mod_lt i hw
+      have ei := idx_eq (w := w) i
+      have key := lt_iff_div_mod hw i s.length
+      simp only
+      rw [bitAt_setIfInBounds _ _ _ _ hJ]
+      by_cases hik : i / w = s.length / w
+      · rw [if_pos hik, BitVec.getLsbD_and, getLsbD_mask, getLsbD_shl1_or _ _ _ mi]
+        rw [hik] at ei
+        have hlt : (i < s.length) ↔ (i % w < s.length % w) := by rw [key]; omega
+        rw [Bool.and_comm]
+        congr 1
+        · simp [mi, hlt]
+        · by_cases hm0 : i % w = 0
+          · rw [if_pos hm0, h3]
+            by_cases hk0 : s.length / w = 0
+            · have : i = 0 := by rw [hk0] at ei; omega
+              rw [if_pos hk0, if_pos this]
+            · have hi0 : ¬ i = 0 := by
+                have : w * 1 ≤ w * (s.length / w) := Nat.mul_le_mul_left w (Nat.pos_of_ne_zero hk0)
+                omega
+              rw [if_neg hk0, if_neg hi0]
+              congr 1; omega
+          · have hi0 : ¬ i = 0 := by omega
+            rw [if_neg hm0, if_neg hi0, hwd _ (by omega)]
+            congr 1; omega
+      · rw [if_neg hik, h2]
+        by_cases hlt : i / w < s.length / w
+        · have : i < s.length := key.mpr (Or.inl hlt)
+          rw [if_pos hlt]; simp [this]
+        · have : ¬ i < s.length := by rw [key]; omega
+          rw [if_neg hlt, hz i (by omega)]; simp [this]
+    · simp only
+      rw [and_one_ne_zero, hwd _ (by omega), if_neg (by omega)]
+      congr 1; omega
+  · have hr0 : s.length % w = 0 := by omega
+    rw [if_neg hr]
+    refine ⟨rfl, h1, ?_, ?_⟩
+    · intro i
+      have key := lt_iff_div_mod hw i s.length
+      simp only
+      rw [h2]
+      by_cases hlt : i / w < s.length / w
+      · have : i < s.length := key.mpr (Or.inl hlt)
+        rw [if_pos hlt]; simp [this]
+      · have : ¬ i < s.length := by rw [key]; omega
+        rw [if_neg hlt, hz i (by omega)]; simp [this]
+    · simp only
+      rw [h3]
+      by_cases hk0 : s.length / w = 0
+      · have : s.length = 0 := by rw [hk0] at eL; omega
+        rw [if_pos hk0, if_pos this]
+      · have : w * 1 ≤ w * (s.length / w) := Nat.mul_le_mul_left w (Nat.pos_of_ne_zero hk0)
+        rw [if_neg hk0, if_neg (by omega)]
+        congr 1; omega
+
+theorem BV.shlIn_len (a : BV) (b : Bool) : (a.shlIn b).1.len = a.len := by
+  unfold BV.shlIn; split <;> rfl
+
+theorem BV.shlIn_snd (a : BV) (b : Bool) :
+    (a.shlIn b).2 = if a.len = 0 then b else a.bit (a.len - 1) := by
+  unfold BV.shlIn; split <;> rfl
+
+theorem BV.shlIn_bit (a : BV) (ha : a.WF) (b : Bool) (i : Nat) :
+    (a.shlIn b).1.bit i = (decide (i < a.len) && (if i = 0 then b else a.bit (i - 1))) := by
+  unfold BV.shlIn BV.bit
+  unfold BV.WF at ha
+  split
+  · rename_i h0
+    rw [h0] at ha
+    have hv : a.val = 0 := by omega
+    simp [h0, hv]
+  · simp only [Nat.testBit_mod_two_pow]
+    congr 1
+    cases i with
+    | zero =>
+      rw [Nat.testBit_zero]
+      cases b <;> simp <;> omega
+    | succ j =>
+      rw [Nat.testBit_succ]
+      have : (2 * a.val + b.toNat) / 2 = a.val := by cases b <;> simp <;> omega
+      rw [this]; simp
+
+theorem Raw.shlIn_refines (s : Raw w) (hw : 0 < w) (h : s.Inv) (b : Bool) :
+    ((s.shlIn b).1).Inv ∧ ((s.shlIn b).1.abs, (s.shlIn b).2) = s.abs.shlIn b := by
+  obtain ⟨h1, h2, h3, h4⟩ := Raw.shlIn_bits s hw h b
+  have hr := Raw.refines_of_bits s (s.shlIn b).1 hw h (s.abs.shlIn b).1 h1
+    (by rw [h2]; exact h.1) (BV.shlIn_len _ _)
+    (by intro i hi
+        rw [BV.shlIn_bit _ (h.wf hw)]
+        have : ¬ i < s.abs.len := by rw [Raw.abs_len]; omega
+        simp [this])
+    (by intro i
+        rw [h3 i, BV.shlIn_bit _ (h.wf hw), Raw.abs_bit _ _ hw, Raw.abs_len])
+  refine ⟨hr.1, ?_⟩
+  apply Prod.ext
+  · exact hr.2
+  · simp only
+    rw [h4, BV.shlIn_snd, Raw.abs_bit _ _ hw, Raw.abs_len]
+
+-- ---- shrIn -------------------------------------------------------------------------------------------
+theorem and_one_ne_zero' (x : BitVec w) : ((x &&& 1#w) != 0#w) = x.getLsbD 0 := by
+  have := and_one_ne_zero x 0
+  simpa using this
+
+theorem div_eq_of_range (hw : 0 < w) (i a : Nat) (h1 : w * a ≤ i) (h2 : i < w * a + w) :
+    i / w = a ∧ i % w = i - w * a := by
+  have h := div_mod_unique hw a (i - w * a) (by omega)
+  have e : w * a + (i - w * a) = i := by omega
+  rw [e] at h; exact h
+
+theorem range_of_div_eq (hw : 0 < w) (i a : Nat) (h : i / w = a) : w * a ≤ i ∧ i < w * a + w := by
+  have e := idx_eq (w := w) i
+  have m := Nat.mod_lt i hw
+  rw [h] at e; omega
+
+/-- loop body of `shrIn` -/
+def shrInStep (i : Nat) (p : Array (BitVec w) × Bool) : Array (BitVec w) × Bool :=
+  let x := wd p.1 i
+  (p.1.setIfInBounds i ((x >>> 1) ||| (b2w w p.2 <<< (w - 1))), (x &&& 1#w) != 0#w)
+
+theorem shrInFold_spec (hw : 0 < w) (d0 : Array (BitVec w)) (c0 : Bool) (k : Nat) :
+    ∀ a, a + k ≤ d0.size →
+    ((List.range' a k).foldr (fun i p => shrInStep i p) (d0, c0)).1.size = d0.size ∧
+    (∀ i, bitAt ((List.range' a k).foldr (fun i p => shrInStep i p) (d0, c0)).1 i =
+      if w * a ≤ i ∧ i < w * a + w * k then (if i + 1 = w * a + w * k then c0 else bitAt d0 (i + 1))
+      else bitAt d0 i) ∧
+    ((List.range' a k).foldr (fun i p => shrInStep i p) (d0, c0)).2 =
+      if k = 0 then c0 else bitAt d0 (w * a) := by
+  induction k with
+  | zero =>
+    intro a _
+    refine ⟨rfl, fun i => ?_, rfl⟩
+    have : ¬ (w * a ≤ i ∧ i < w * a + w * 0) := by omega
+    rw [if_neg this]; rfl
+  | succ k ih =>
+    intro a ha
+    obtain ⟨h1, h2, h3⟩ := ih (a + 1) (by omega)
+    rw [List.range'_succ, List.foldr_cons]
+    generalize (List.range' (a + 1) k).foldr (fun i p => shrInStep i p) (d0, c0) = r at h1 h2 h3
+    have hA : w * (a + 1) = w * a + w := Nat.mul_succ w a
+    have hK : w * (k + 1) = w * k + w := Nat.mul_succ w k
+    rw [hA] at h2 h3
+    have has : a < r.1.size := by omega
+    have hwd : ∀ m, m < w → (wd r.1 a).getLsbD m = bitAt d0 (w * a + m) := by
+      intro m hm
+      rw [getLsbD_wd _ hw _ _ hm, h2]
+      have : ¬ (w * a + w ≤ w * a + m ∧ w * a + m < w * a + w + w * k) := by omega
+      rw [if_neg this]
+    refine ⟨by simp [shrInStep, h1], ?_, ?_⟩
+    · intro i
+      simp only [shrInStep]
+      rw [bitAt_setIfInBounds _ _ _ _ has, hK]
+      by_cases hia : w * a ≤ i ∧ i < w * a + w
+      · obtain ⟨hd, hm⟩ := div_eq_of_range hw i a hia.1 hia.2
+        have c2 : w * a ≤ i ∧ i < w * a + (w * k + w) := by omega
+        rw [if_pos hd, if_pos c2, getLsbD_shr1_or _ _ _ _ (by omega : w - 1 < w)]
+        by_cases hlast : i % w = w - 1
+        · rw [BitVec.getLsbD_of_ge _ _ (by omega : w ≤ i % w + 1), h3]
+          simp only [hlast, decide_true, Bool.true_and, Bool.false_or]
+          by_cases hk0 : k = 0
+          · subst hk0
+            rw [if_pos rfl, if_pos (by omega)]
+          · have : w * 1 ≤ w * k := Nat.mul_le_mul_left w (Nat.pos_of_ne_zero hk0)
+            have c3 : ¬ (i + 1 = w * a + (w * k + w)) := by omega
+            rw [if_neg hk0, if_neg c3]
+            congr 1; omega
+        · have c3 : ¬ (i + 1 = w * a + (w * k + w)) := by omega
+          rw [if_neg c3, hwd _ (by omega)]
+          simp only [hlast, decide_false, Bool.false_and, Bool.or_false]
+          congr 1; omega
+      · have hd : ¬ i / w = a := fun e => hia (range_of_div_eq hw i a e)
+        rw [if_neg hd, h2]
+        by_cases c1 : w * a + w ≤ i ∧ i < w * a + w + w * k
+        · have c2 : w * a ≤ i ∧ i < w * a + (w * k + w) := by omega
+          rw [if_pos c1, if_pos c2]
+          by_cases c3 : i + 1 = w * a + w + w * k
+          · have c4 : i + 1 = w * a + (w * k + w) := by omega
+            rw [if_pos c3, if_pos c4]
+          · have c4 : ¬ (i + 1 = w * a + (w * k + w)) := by omega
+            rw [if_neg c3, if_neg c4]
+        · have c2 : ¬ (w * a ≤ i ∧ i < w * a + (w * k + w)) := by omega
+          rw [if_neg c1, if_neg c2]
+    · simp only [shrInStep]
+      rw [and_one_ne_zero', hwd _ hw, if_neg (by omega)]
+      rfl
+
+/-- the partial top word of `shrIn` -/
+def Raw.shrInTop (s : Raw w) (bit : Bool) : Array (BitVec w) × Bool :=
+  if s.length % w ≠ 0 then
+    (s.data.setIfInBounds (s.length / w)
+      ((wd s.data (s.length / w) >>> 1) ||| (b2w w bit <<< (s.length % w - 1))),
+     (wd s.data (s.length / w) &&& 1#w) != 0#w)
+  else (s.data, bit)
+
+theorem Raw.shrIn_eq (s : Raw w) (bit : Bool) :
+    s.shrIn bit =
+      (⟨((List.range' 0 (s.length / w)).foldr (fun i p => shrInStep i p) (s.shrInTop bit)).fst, s.length⟩,
+        ((List.range' 0 (s.length / w)).foldr (fun i p => shrInStep i p) (s.shrInTop bit)).snd) := by
+  rfl
+
+theorem Raw.shrInTop_spec (s : Raw w) (hw : 0 < w) (h : s.Inv) (b : Bool) :
+    (s.shrInTop b).1.size = s.data.size ∧
+    (∀ i, bitAt (s.shrInTop b).1 i =
+      if (w * (s.length / w) ≤ i ∧ i < w * (s.length / w) + w) ∧ s.length % w ≠ 0 then
+        (if i + 1 = s.length then b else bitAt s.data (i + 1))
+      else bitAt s.data i) ∧
+    (s.shrInTop b).2 = if s.length % w ≠ 0 then bitAt s.data (w * (s.length / w)) else b := by
+  obtain ⟨hcap, hz⟩ := h
+  have eL := idx_eq (w := w) s.length
+  have mL := Nat.mod_lt s.length hw
+  unfold Raw.shrInTop
+  by_cases hr : s.length % w ≠ 0
+  · rw [if_pos hr, if_pos hr]
+    have hJ : s.length / w < s.data.size := div_lt_size hw _ _ hcap hr
+    refine ⟨by simp, ?_, ?_⟩
+    · intro i
+      simp only
+      rw [bitAt_setIfInBounds _ _ _ _ hJ]
+      by_cases hia : w * (s.length / w) ≤ i ∧ i < w * (s.length / w) + w
+      · obtain ⟨hd, hm⟩ := div_eq_of_range hw i _ hia.1 hia.2
+        rw [if_pos hd, if_pos ⟨hia, hr⟩, getLsbD_shr1_or _ _ _ _ (by omega : s.length % w - 1 < w)]
+        by_cases hlast : i + 1 = s.length
+        · have e1 : i % w = s.length % w - 1 := by omega
+          rw [if_pos hlast]
+          by_cases hge : w ≤ i % w + 1
+          · rw [BitVec.getLsbD_of_ge _ _ hge]; simp [e1]
+          · rw [getLsbD_wd _ hw _ _ (by omega), hz _ (by omega)]; simp [e1]
+        · have e1 : ¬ (i % w = s.length % w - 1) := by omega
+          rw [if_neg hlast]
+          simp only [e1, decide_false, Bool.false_and, Bool.or_false]
+          by_cases hge : w ≤ i % w + 1
+          · rw [BitVec.getLsbD_of_ge _ _ hge, hz _ (by omega)]
+          · rw [getLsbD_wd _ hw _ _ (by omega)]
+            congr 1; omega
+      · have hd : ¬ i / w = s.length / w := fun e => hia (range_of_div_eq hw i _ e)
+        have : ¬ ((w * (s.length / w) ≤ i ∧ i < w * (s.length / w) + w) ∧ s.length % w ≠ 0) :=
+          fun e => hia e.1
+        rw [if_neg hd, if_neg this]
+    · simp only
+      rw [and_one_ne_zero', getLsbD_wd _ hw _ _ hw]
+      rfl
+  · rw [if_neg hr, if_neg hr]
+    refine ⟨rfl, fun i => ?_, rfl⟩
+    have : ¬ ((w * (s.length / w) ≤ i ∧ i < w * (s.length / w) + w) ∧ s.length % w ≠ 0) :=
+      fun e => hr e.2
+    rw [if_neg this]
+
+theorem Raw.shrIn_bits (s : Raw w) (hw : 0 < w) (h : s.Inv) (b : Bool) :
+    (s.shrIn b).1.length = s.length ∧ (s.shrIn b).1.data.size = s.data.size ∧
+    (∀ i, bitAt (s.shrIn b).1.data i =
+      (decide (i < s.length) && (if i + 1 = s.length then b else bitAt s.data (i + 1)))) ∧
+    (s.shrIn b).2 = (if s.length = 0 then b else bitAt s.data 0) := by
+  obtain ⟨t1, t2, t3⟩ := Raw.shrInTop_spec s hw h b
+  obtain ⟨hcap, hz⟩ := h
+  rw [Raw.shrIn_eq]
+  generalize s.shrInTop b = T at t1 t2 t3
+  obtain ⟨d1, c1⟩ := T
+  simp only at t1 t2 t3
+  obtain ⟨h1, h2, h3⟩ := shrInFold_spec hw d1 c1 (s.length / w) 0
+    (by rw [t1, Nat.zero_add]; exact div_le_size hw _ _ hcap)
+  generalize (List.range' 0 (s.length / w)).foldr (fun i p => shrInStep i p) (d1, c1) = r
+    at h1 h2 h3
+  have eL := idx_eq (w := w) s.length
+  have mL := Nat.mod_lt s.length hw
+  simp only [Nat.mul_zero, Nat.zero_add, Nat.zero_le, true_and] at h2 h3
+  refine ⟨rfl, by simp only; rw [h1, t1], ?_, ?_⟩
+  · intro i
+    simp only
+    rw [h2]
+    by_cases hlo : i < w * (s.length / w)
+    · have hil : i < s.length := by omega
+      rw [if_pos hlo]
+      simp only [hil, decide_true, Bool.true_and]
+      by_cases hb : i + 1 = w * (s.length / w)
+      · rw [if_pos hb, t3]
+        by_cases hr : s.length % w ≠ 0
+        · rw [if_pos hr, if_neg (by omega), hb]
+        · rw [if_neg hr, if_pos (by omega)]
+      · have : ¬ ((w * (s.length / w) ≤ i + 1 ∧ i + 1 < w * (s.length / w) + w) ∧ s.length % w ≠ 0) := by
+          omega
+        rw [if_neg hb, t2, if_neg this, if_neg (by omega)]
+    · rw [if_neg hlo, t2]
+      by_cases htop : (w * (s.length / w) ≤ i ∧ i < w * (s.length / w) + w) ∧ s.length % w ≠ 0
+      · rw [if_pos htop]
+        by_cases hil : i < s.length
+        · simp [hil]
+        · rw [if_neg (by omega), hz _ (by omega)]
+          simp [hil]
+      · have hil : ¬ i < s.length := by omega
+        rw [if_neg htop, hz _ (by omega)]
+        simp [hil]
+  · simp only
+    rw [h3]
+    by_cases hk0 : s.length / w = 0
+    · rw [if_pos hk0, t3]
+      rw [hk0] at eL
+      by_cases hr : s.length % w ≠ 0
+      · rw [if_pos hr, if_neg (by omega), hk0]; rfl
+      · rw [if_neg hr, if_pos (by omega)]
+    · have : w * 1 ≤ w * (s.length / w) := Nat.mul_le_mul_left w (Nat.pos_of_ne_zero hk0)
+      rw [if_neg hk0, if_neg (by omega), t2]
+      have : ¬ ((w * (s.length / w) ≤ 0 ∧ 0 < w * (s.length / w) + w) ∧ s.length % w ≠ 0) := by omega
+      rw [if_neg this]
+
+theorem BV.shrIn_len (a : BV) (b : Bool) : (a.shrIn b).1.len = a.len := by
+  unfold BV.shrIn; split <;> rfl
+
+theorem BV.shrIn_snd (a : BV) (b : Bool) :
+    (a.shrIn b).2 = if a.len = 0 then b else a.bit 0 := by
+  unfold BV.shrIn; split <;> rfl
+
+theorem toNat_testBit (b : Bool) (m : Nat) : b.toNat.testBit m = (decide (m = 0) && b) := by
+  cases b
+  · simp
+  · cases m with
+    | zero => simp
+    | succ m => simp [Nat.testBit_succ]
+
+theorem BV.shrIn_bit (a : BV) (ha : a.WF) (b : Bool) (i : Nat) :
+    (a.shrIn b).1.bit i = (decide (i < a.len) && (if i + 1 = a.len then b else a.bit (i + 1))) := by
+  unfold BV.shrIn BV.bit
+  unfold BV.WF at ha
+  split
+  · rename_i h0
+    rw [h0] at ha
+    have hv : a.val = 0 := by omega
+    simp [h0, hv]
+  · rename_i h0
+    have e2 : 2 ^ a.len = 2 * 2 ^ (a.len - 1) := by
+      rw [← Nat.pow_succ']; congr 1; omega
+    have hlt : a.val / 2 < 2 ^ (a.len - 1) := by omega
+    simp only
+    rw [Nat.add_comm, Nat.mul_comm, Nat.testBit_two_pow_mul_add _ hlt, toNat_testBit,
+      Nat.testBit_div_two]
+    by_cases h1 : i < a.len - 1
+    · have h2 : i < a.len := by omega
+      have h3 : ¬ i + 1 = a.len := by omega
+      simp [h1, h2, h3]
+    · by_cases h2 : i + 1 = a.len
+      · have h3 : i < a.len := by omega
+        have h4 : i - (a.len - 1) = 0 := by omega
+        simp [h1, h2, h3, h4]
+      · have h3 : ¬ i < a.len := by omega
+        have h4 : ¬ i - (a.len - 1) = 0 := by omega
+        simp [h1, h3, h4]
+
+theorem Raw.shrIn_refines (s : Raw w) (hw : 0 < w) (h : s.Inv) (b : Bool) :
+    ((s.shrIn b).1).Inv ∧ ((s.shrIn b).1.abs, (s.shrIn b).2) = s.abs.shrIn b := by
+  obtain ⟨h1, h2, h3, h4⟩ := Raw.shrIn_bits s hw h b
+  have hr := Raw.refines_of_bits s (s.shrIn b).1 hw h (s.abs.shrIn b).1 h1
+    (by rw [h2]; exact h.1) (BV.shrIn_len _ _)
+    (by intro i hi
+        rw [BV.shrIn_bit _ (h.wf hw)]
+        have : ¬ i < s.abs.len := by rw [Raw.abs_len]; omega
+        simp [this])
+    (by intro i
+        rw [h3 i, BV.shrIn_bit _ (h.wf hw), Raw.abs_bit _ _ hw, Raw.abs_len])
+  refine ⟨hr.1, ?_⟩
+  apply Prod.ext
+  · exact hr.2
+  · simp only
+    rw [h4, BV.shrIn_snd, Raw.abs_bit _ _ hw, Raw.abs_len]
+
+-- ---- Bvd: shifts into fresh storage -----------------------------------------------------------------
+theorem bitAt_replicate_zero (n i : Nat) : bitAt (Array.replicate n 0#w) i = false := by
+  unfold bitAt wd
+  simp only [Array.getD_eq_getD_getElem?, Array.getElem?_replicate]
+  split <;> simp
+
+theorem size_orBits (ws : Array (BitVec w)) (pos : Nat) (d : BitVec w) :
+    (orBits ws pos d).size = ws.size := by
+  simp [orBits]
+
+namespace Bvd
+
+theorem shrRefLoop_spec (old : Array (BitVec 64)) (shift length : Nat)
+    (new : Array (BitVec 64)) (newIdx : Nat) (hsz : new.size = capW length)
+    (hinv : ∀ i, bitAt new i = (decide (i < newIdx) && bitAt old (i + shift))) :
+    (shrRefLoop old new shift length newIdx).size = capW length ∧
+    ∃ n, length ≤ n + shift ∧
+      ∀ i, bitAt (shrRefLoop old new shift length newIdx) i = (decide (i < n) && bitAt old (i + shift)) := by
+  fun_induction shrRefLoop old new shift length newIdx with
+  | case1 new newIdx hlt oldIdx l ih =>
+    have hl1 : 0 < l := by simp only [l, oldIdx]; omega
+    have hfit1 : newIdx % 64 + l ≤ 64 := by simp only [l, oldIdx]; omega
+    have hfit2 : oldIdx % 64 + l ≤ 64 := by simp only [l, oldIdx]; omega
+    have hin : newIdx / 64 < new.size := by
+      rw [hsz]; unfold capW capFromBitLen; omega
+    apply ih (by rw [size_orBits]; exact hsz)
+    intro i
+    rw [bitAt_orBits new newIdx l i _ (by decide) hfit1 hin (fun j hj => readBits_high old _ l j hj),
+      hinv i, getLsbD_readBits old _ l _ (by decide) hfit2]
+    by_cases h1 : i < newIdx
+    · have h2 : i < newIdx + l := by omega
+      have h3 : ¬ (newIdx ≤ i ∧ i < newIdx + l) := by omega
+      rw [decide_eq_false h3]; simp [h1, h2]
+    · by_cases h2 : i < newIdx + l
+      · have h3 : newIdx ≤ i ∧ i < newIdx + l := by omega
+        have h4 : i - newIdx < l := by omega
+        have e : oldIdx + (i - newIdx) = i + shift := by simp only [oldIdx]; omega
+        rw [decide_eq_true h3, e]; simp [h1, h2, h4]
+      · have h3 : ¬ (newIdx ≤ i ∧ i < newIdx + l) := by omega
+        rw [decide_eq_false h3]; simp [h1, h2]
+  | case2 new newIdx hlt =>
+    exact ⟨hsz, newIdx, by omega, hinv⟩
+
+theorem shrRef_bits (s : Raw 64) (h : s.Inv) (k i : Nat) :
+    bitAt (shrRef s k).data i = (decide (i + k < s.length) && bitAt s.data (i + k)) := by
+  obtain ⟨_, n, hn, hb⟩ := shrRefLoop_spec s.data k s.length (Array.replicate (capW s.length) 0#64) 0
+    (by simp) (by intro i; rw [bitAt_replicate_zero]; simp)
+  unfold shrRef
+  simp only
+  rw [hb i]
+  by_cases h1 : i + k < s.length
+  · have : i < n := by omega
+    simp [h1, this]
+  · rw [h.2 _ (by omega)]; simp
+
+theorem shrRef_refines (s : Raw 64) (h : s.Inv) (k : Nat) :
+    (shrRef s k).Inv ∧ (shrRef s k).abs = s.abs.shr k := by
+  have hw : 0 < 64 := by decide
+  have hsz : (shrRef s k).data.size = capW s.length :=
+    (shrRefLoop_spec s.data k s.length (Array.replicate (capW s.length) 0#64) 0
+      (by simp) (by intro i; rw [bitAt_replicate_zero]; simp)).1
+  apply Raw.refines_of_bits s (shrRef s k) hw h (s.abs.shr k) rfl
+    (by rw [hsz]; unfold capW capFromBitLen; omega)
+  · unfold BV.shr; split <;> rfl
+  · intro i hi
+    rw [BV.shr_bit _ (h.wf hw)]
+    have : ¬ (i + k < s.abs.len) := by rw [Raw.abs_len]; omega
+    simp [this]
+  · intro i
+    rw [shrRef_bits s h, BV.shr_bit _ (h.wf hw), Raw.abs_bit _ _ hw, Raw.abs_len]
+
+theorem shlRefLoop_spec (old : Array (BitVec 64)) (shift length : Nat)
+    (new : Array (BitVec 64)) (newIdx : Nat) (hsz : new.size = capW length) (hle : newIdx ≤ length)
+    (hinv : ∀ i, bitAt new i = (decide (newIdx ≤ i ∧ i < length) && bitAt old (i - shift))) :
+    (shlRefLoop old new shift newIdx).size = capW length ∧
+    ∀ i, bitAt (shlRefLoop old new shift newIdx) i =
+      (decide (min shift newIdx ≤ i ∧ i < length) && bitAt old (i - shift)) := by
+  fun_induction shlRefLoop old new shift newIdx with
+  | case1 new newIdx hlt l n' ih =>
+    have hl1 : 1 ≤ l := by simp only [l]; omega
+    have hla : l ≤ (newIdx - 1) % 64 + 1 := by simp only [l]; omega
+    have hlb : l ≤ (newIdx - shift - 1) % 64 + 1 := by simp only [l]; omega
+    have hln : l ≤ newIdx - shift := by omega
+    have hfit1 : n' % 64 + l ≤ 64 := by
+      have := sub_fit (w := 64) (by decide) newIdx l (by omega) hl1 hla
+      simp only [n']; omega
+    have hfit2 : (n' - shift) % 64 + l ≤ 64 := by
+      have := sub_fit (w := 64) (by decide) (newIdx - shift) l (by omega) hl1 hlb
+      have e : n' - shift = newIdx - shift - l := by simp only [n']; omega
+      rw [e]; omega
+    have hin : n' / 64 < new.size := by
+      rw [hsz]; unfold capW capFromBitLen; simp only [n']; omega
+    have hmin : min shift n' = min shift newIdx := by simp only [n']; omega
+    rw [← hmin]
+    apply ih (by rw [size_orBits]; exact hsz) (by simp only [n']; omega)
+    intro i
+    rw [bitAt_orBits new n' l i _ (by decide) hfit1 hin (fun j hj => readBits_high old _ l j hj),
+      hinv i, getLsbD_readBits old _ l _ (by decide) hfit2]
+    by_cases h1 : newIdx ≤ i ∧ i < length
+    · have h2 : n' ≤ i ∧ i < length := by simp only [n']; omega
+      have h3 : ¬ (n' ≤ i ∧ i < n' + l) := by simp only [n']; omega
+      rw [decide_eq_true h1, decide_eq_true h2, decide_eq_false h3]; simp
+    · by_cases h3 : n' ≤ i ∧ i < n' + l
+      · have h2 : n' ≤ i ∧ i < length := by simp only [n'] at h3 ⊢; omega
+        have h4 : i - n' < l := by omega
+        have e : n' - shift + (i - n') = i - shift := by simp only [n'] at h3 ⊢; omega
+        rw [decide_eq_false h1, decide_eq_true h2, decide_eq_true h3, e]; simp [h4]
+      · have h2 : ¬ (n' ≤ i ∧ i < length) := by simp only [n'] at h3 ⊢; omega
+        rw [decide_eq_false h1, decide_eq_false h2, decide_eq_false h3]; simp
+  | case2 new newIdx hlt =>
+    have hmin : min shift newIdx = newIdx := by omega
+    rw [hmin]
+    exact ⟨hsz, hinv⟩
+
+theorem shlRef_bits (s : Raw 64) (h : s.Inv) (k i : Nat) :
+    bitAt (shlRef s k).data i = (decide (k ≤ i ∧ i < s.length) && bitAt s.data (i - k)) := by
+  obtain ⟨_, hb⟩ := shlRefLoop_spec s.data k s.length (Array.replicate (capW s.length) 0#64) s.length
+    (by simp) (Nat.le_refl _)
+    (by intro i; rw [bitAt_replicate_zero]
+        have : ¬ (s.length ≤ i ∧ i < s.length) := by omega
+        rw [decide_eq_false this]; simp)
+  unfold shlRef
+  simp only
+  rw [hb i]
+  by_cases h1 : k ≤ i ∧ i < s.length
+  · have h2 : min k s.length ≤ i ∧ i < s.length := by omega
+    rw [decide_eq_true h1, decide_eq_true h2]
+  · have h2 : ¬ (min k s.length ≤ i ∧ i < s.length) := by omega
+    rw [decide_eq_false h1, decide_eq_false h2]
+
+theorem shlRef_refines (s : Raw 64) (h : s.Inv) (k : Nat) :
+    (shlRef s k).Inv ∧ (shlRef s k).abs = s.abs.shl k := by
+  have hw : 0 < 64 := by decide
+  have hsz : (shlRef s k).data.size = capW s.length :=
+    (shlRefLoop_spec s.data k s.length (Array.replicate (capW s.length) 0#64) s.length
+      (by simp) (Nat.le_refl _)
+      (by intro i; rw [bitAt_replicate_zero]
+          have : ¬ (s.length ≤ i ∧ i < s.length) := by omega
+          rw [decide_eq_false this]; simp)).1
+  apply Raw.refines_of_bits s (shlRef s k) hw h (s.abs.shl k) rfl
+    (by rw [hsz]; unfold capW capFromBitLen; omega)
+  · unfold BV.shl; split <;> rfl
+  · intro i hi
+    rw [BV.shl_bit]
+    have : ¬ (k ≤ i ∧ i < s.abs.len) := by rw [Raw.abs_len]; omega
+    simp [this]
+  · intro i
+    rw [shlRef_bits s h, BV.shl_bit, Raw.abs_bit _ _ hw, Raw.abs_len]
+
+end Bvd
+
 end Bva
